@@ -25,8 +25,10 @@ func (e *vhWalletEnv) walletValue() v.Z {
 	for _, p := range e.db.proofs {
 		s = v.ZAdd(s, v.ZU(p.Amount))
 	}
+	// pending proofs count as long as the mint has not consumed them (a handed-out proof that was redeemed, or the inputs of
+	// a melt that was paid, stay in the pending store until the next reconciliation but carry no value any more)
 	for _, p := range e.db.pending {
-		s = v.ZAdd(s, v.ZU(p.Amount))
+		s = v.ZAdd(s, v.ZIte(e.mint.isSpent(p.Secret), v.ZU(0), v.ZU(p.Amount)))
 	}
 	return s
 }
@@ -351,4 +353,111 @@ func vhRestore(nb int, dense bool) {
 	db.Close()
 	v.Reach("restored")
 	_ = first
+}
+
+// C17: reconciliation of the pending store: 1..2 pending proofs, each either handed out in a token or locked in a melt,
+// each UNSPENT / SPENT / PENDING at the mint; ReclaimUnspentProofs or RemoveSpentProofs.
+func VHarnessWalletReclaim() {
+	ppkA := uint(v.PickU64(v.U64("ppk.active"), 0, 1000))
+	env := vhNewWallet(ppkA, 0, 0)
+	defer env.close()
+	n := v.Int("nPending", 1, 2)
+	states := make([]int, n)
+	secrets := make([]string, n)
+	inMelt := make([]bool, n)
+	for i := 0; i < n; i++ {
+		e := v.U64(fmt.Sprintf("pend%d.exp", i))
+		v.Assume(e <= 2)
+		secrets[i] = fmt.Sprintf("pending-secret-%d", i)
+		p := cashu.Proof{Amount: uint64(1) << e, Id: vhKsIds[0], Secret: secrets[i], C: fmt.Sprintf("03%062d", i)}
+		inMelt[i] = v.Int(fmt.Sprintf("pend%d.inmelt", i), 0, 1) == 1
+		if inMelt[i] {
+			env.db.AddPendingProofsByQuoteId(cashu.Proofs{p}, "mq1")
+		} else {
+			env.db.AddPendingProofs(cashu.Proofs{p})
+		}
+		// at the mint: 0 UNSPENT (token never redeemed / payment failed), 1 SPENT (redeemed / paid), 2 PENDING (payment in flight)
+		states[i] = v.Int(fmt.Sprintf("pend%d.mintstate", i), 0, 2)
+		switch states[i] {
+		case 1:
+			env.mint.Spent = append(env.mint.Spent, p.Secret)
+			env.mint.SpentAmounts = append(env.mint.SpentAmounts, p.Amount)
+		case 2:
+			v.Assume(inMelt[i])
+			env.mint.Locked = append(env.mint.Locked, p.Secret)
+		}
+	}
+	l := env.snapshot()
+	op := v.Int("op", 0, 1)
+	var err error
+	if op == 0 {
+		_, err = env.w.ReclaimUnspentProofs()
+	} else {
+		err = env.w.RemoveSpentProofs()
+	}
+	env.checkConservation(l, "reconcile")
+	if err != nil {
+		v.Reach("reconcile-error")
+		return
+	}
+	for i := 0; i < n; i++ {
+		present := false
+		for _, p := range env.db.pending {
+			present = v.Or(present, p.Secret == secrets[i])
+		}
+		if op == 0 {
+			v.Assert(present == (states[i] != 0), "C17 reclaim: exactly the pending proofs the mint reports UNSPENT leave the pending store (value locked in an in-flight melt stays pending)")
+		} else {
+			v.Assert(present == (states[i] != 1), "C17 remove-spent: exactly the pending proofs the mint reports SPENT leave the pending store")
+		}
+	}
+	pend := v.ZU(0)
+	for _, p := range env.db.pending {
+		pend = v.ZAdd(pend, v.ZU(p.Amount))
+	}
+	v.Assert(v.ZEq(v.ZU(env.w.PendingBalance()), pend), "C17 reconcile: the pending balance is exactly the value still pending")
+	v.Reach(fmt.Sprintf("reconciled-%d", op))
+	env.checkNoLeak("reconcile")
+}
+
+// C17/C19/C08: receive a token of the wallet's own mint: its proofs are swapped for new deterministic ones
+func VHarnessWalletReceive() {
+	ppkA := uint(v.PickU64(v.U64("ppk.active"), 0, 100, 1000))
+	c := v.U32("counter")
+	v.Assume(c < 1<<30)
+	env := vhNewWallet(ppkA, 0, c)
+	defer env.close()
+	n := v.Int("nToken", 1, 2)
+	var ps cashu.Proofs
+	total := v.ZU(0)
+	for i := 0; i < n; i++ {
+		e := v.U64(fmt.Sprintf("tok%d.exp", i))
+		v.Assume(e <= 3)
+		p := cashu.Proof{Amount: uint64(1) << e, Id: vhKsIds[0], Secret: fmt.Sprintf("token-secret-%d", i), C: fmt.Sprintf("02%062d", 50+i)}
+		ps = append(ps, p)
+		total = v.ZAdd(total, v.ZU(p.Amount))
+	}
+	tok, terr := cashu.NewTokenV4(ps, env.mint.URL, cashu.Sat, false)
+	v.Assume(terr == nil)
+	fee := env.mint.fee(ps)
+	env.mint.Refuse = v.Int("mint.refuses", 0, 1) == 1
+	l := env.snapshot()
+	l.wallet0 = v.ZAdd(l.wallet0, total) // the value in the token the caller hands in
+	first := len(env.mint.Reqs)
+	bal0 := env.w.GetBalance()
+	got, err := env.w.Receive(tok, false)
+	after := env.db.GetKeysetCounter(env.mint.Active)
+	if err == nil {
+		v.Reach("received")
+		v.Assert(v.ZEq(v.ZAdd(v.ZU(got), v.ZU(fee)), total), "C17 receive: the wallet reports exactly the token value minus the mint's input fee")
+		v.Assert(v.ZEq(v.ZU(env.w.GetBalance()), v.ZAdd(v.ZU(bal0), v.ZU(got))), "C17 receive: the balance grows by exactly the amount reported")
+		k := env.checkCounters(c, first, "/v1/swap", "receive")
+		v.Assert(after == c+uint32(k), "C19 receive: the stored counter is past every counter submitted for signing")
+	} else {
+		v.Reach("receive-failed")
+		v.Assert(v.And(after == c, env.w.GetBalance() == bal0), "C17/C19 receive: a failed receive changes neither balance nor counter")
+		l.wallet0 = v.ZSub(l.wallet0, total) // the token is still the caller's
+	}
+	env.checkConservation(l, "receive")
+	env.checkNoLeak("receive")
 }
